@@ -122,8 +122,7 @@ func main() {
 			code = 1
 			return
 		}
-		r := NewR(w, pd.ID, *tier)
-		pd.Run(r)
+		r := RunProperty(w, pd, *tier, *verif)
 		if *tier == "thorough" && os.Getenv("ARVCHECK_SELFTEST") == "" {
 			max := 300
 			if m := os.Getenv("VERIF_SELFTEST_MAX"); m != "" {
